@@ -345,7 +345,16 @@ def random_cfg(rng: random.Random, profile: str) -> dict:
             cfg["impactPct"] = rng.choice([10, 50, 100])
             cfg["vlN"], cfg["vlD"], cfg["vs"] = rng.choice([(1, 2), (1, 1), (1, 4)]) + (1,)
         cfg["impact"] = cfg["impactPct"] > 0
-    if lend == "margin" and rng.random() < 0.2:
+    if lend == "margin" and rng.random() < 0.2 and "EUR" not in syms:
+        # a symbol that is only borrowed, with loan amounts finer than its configured precision (1 decimal, units of 0.001)
+        syms.append("EUR")
+        cfg["scale"]["EUR"] = 1000
+        cfg["init"]["EUR"] = rng.choice([0, 2000, 37500])
+        cfg["pairs"].append({"b": "EUR", "q": "USD"})
+        cfg["cond"]["EUR"] = no_cond()
+        cfg["precOverride"] = {"EUR": 1}
+        cfg["borrowOnly"] = len(cfg["pairs"])
+    elif lend == "margin" and rng.random() < 0.2:
         # dust equity against huge loans: the margin level is a tiny positive number (0.00..% once rounded)
         cfg["scale"] = {s: 1 for s in syms}
         cfg["pm"] = 1
@@ -355,12 +364,17 @@ def random_cfg(rng: random.Random, profile: str) -> dict:
     if lend == "margin" and rng.random() < 0.15:
         # a minimum fee larger than small proceeds: a sell may have to borrow both symbols
         cfg["feeMode"], cfg["feeN"], cfg["feeD"], cfg["minFeeN"], cfg["minFeeD"] = "pct", 1, 100, rng.choice([3, 50]), 1
+    if lend == "margin" and cfg.get("borrowOnly"):
+        cfg["scale"] = {s: (v if s == "EUR" else min(v, 10)) for s, v in cfg["scale"].items()}
     if lend == "margin":
         # keep value computations (units * price * scale ratio * requirement) inside TLC's 32-bit integers
         cfg["pm"] = 1
-        cfg["scale"] = {s: min(v, 10) for s, v in cfg["scale"].items()}
+        cfg["scale"] = {s: (v if s == "EUR" and cfg.get("borrowOnly") else min(v, 10)) for s, v in cfg["scale"].items()}
         cfg["reqD"] = 4
         for s in syms:
+            if s == "EUR" and cfg.get("borrowOnly"):
+                cfg["cond"][s] = margin_cond("EUR", 0, 1, 1, 0, rng.choice([1, 2, 4]))      # no interest: nothing is truncated
+                continue
             if rng.random() < 0.85:
                 cfg["cond"][s] = margin_cond(rng.choice([s, "USD"]), *rng.choice([(0, 1), (1, 100), (1, 10), (7, 100)]),
                                              period=rng.choice([1, 2, 4, 8]),
@@ -379,7 +393,8 @@ class Driver:
         self.calls_left = {}
         self.bars = []
         t = 0
-        px = {i + 1: (rng.randint(2, 20) if cfg.get("dust") else rng.randint(20, 200)) * cfg["pm"] for i in range(len(cfg["pairs"]))}
+        px = {i + 1: (rng.randint(2, 20) if (cfg.get("dust") or cfg.get("borrowOnly") == i + 1) else rng.randint(20, 200)) * cfg["pm"]
+              for i in range(len(cfg["pairs"]))}
         for _ in range(nbars):
             t += rng.choice([1, 1, 1, 2, 4])
             some = False
@@ -429,11 +444,13 @@ class Driver:
             return [{"kind": kind, "arg": rng.randint(1, n + 1)}]
         if kind == "create_loan":
             s = rng.choice(cfg["syms"])
+            if cfg.get("borrowOnly") and rng.random() < 0.6:
+                return [{"kind": kind, "arg": {"sym": "EUR", "amount": rng.choice([rng.randint(1, 999), rng.randint(1000, 50000)])}}]
             if cfg.get("dust"):
                 return [{"kind": kind, "arg": {"sym": s, "amount": rng.choice([1, rng.randint(2, 9), rng.randint(10**3, 10**4), rng.randint(10**4, 2 * 10**4)])}}]
             return [{"kind": kind, "arg": {"sym": s, "amount": rng.choice([0, 1, rng.randint(1, 60), rng.randint(50, 600)])}}]
         # create_order, aiming at the reservation boundary
-        p = rng.randint(1, len(cfg["pairs"]))
+        p = rng.randint(1, len(cfg["pairs"]) - (1 if cfg.get("borrowOnly") else 0))
         pr = cfg["pairs"][p - 1]
         pd = cfg["scale"][pr["b"]] * cfg["pm"]
         ty = rng.choice(["market", "limit", "limit", "stop", "stoplimit"] + (["stoplimit", "stoplimit"] if cfg.get("slip") else []))
